@@ -93,6 +93,8 @@ impl<Error: Send + 'static> DecodeScheduler<Error> {
 
 	pub fn start(mut self) {
 		std::thread::spawn(move || loop {
+			#[cfg(kira_verif)]
+			crate::verif_hooks::yield_point("decoder.loop.top");
 			match self.run() {
 				Ok(result) => match result {
 					NextStep::Continue => {}
@@ -100,6 +102,8 @@ impl<Error: Send + 'static> DecodeScheduler<Error> {
 					NextStep::End => break,
 				},
 				Err(error) => {
+					#[cfg(kira_verif)]
+					crate::verif_hooks::yield_point("decoder.loop.before_error_push");
 					self.error_producer.push(error).ok();
 					self.shared.encountered_error.store(true, Ordering::SeqCst);
 				}
